@@ -66,7 +66,8 @@ def case_strategy():
         "objs": st.lists(obj_strategy(), min_size=1, max_size=5),
         "z": st.sampled_from([None, None, None, "execstack", "noexecstack"]),
         "zfix": st.sampled_from(["execstack"] * 7 + [None]),
-        "isa": st.sampled_from([None, None, None, "x86-64-baseline", "x86-64-v2", "x86-64-v3", "x86-64-v4"]),
+        # (-z x86-64-baseline makes GNU ld 2.40 abort in _bfd_x86_elf_merge_gnu_properties with >= 2 inputs: rare)
+        "isa": st.sampled_from([None] * 8 + ["x86-64-v2"] * 3 + ["x86-64-v3"] * 3 + ["x86-64-v4"] * 3 + ["x86-64-baseline"]),
         "dep": st.booleans(),
         # False (usual): every input gets a .note.GNU-stack (outside the known finding's domain)
         "raw": st.sampled_from([False] * 9 + [True]),
